@@ -1,5 +1,5 @@
 """Fact loader: bodies (typed trees), MIR summaries, items; call graph; tree walking helpers."""
-import json, os, hashlib, subprocess, sys, time, shutil, glob
+import json, os, hashlib, subprocess, sys, time, shutil, glob, re
 
 VERIF = os.path.dirname(os.path.dirname(os.path.abspath(__file__)))
 REPO = os.environ.get("PG_REPO", "/repo")
@@ -123,8 +123,18 @@ def canonical_param_names(fx):
         if b["krate"] == "proguard" and b["kind"] in ("Fn", "AssocFn"):
             by_key.setdefault(fn_key(p), []).append(p)
     done = {}
+    # a free function that moved to another module is still that function when its name is unique on both sides
+    last = lambda k_: k_.rsplit("::", 1)[-1]
+    t_last, b_last = {}, {}
+    for k_ in table:
+        t_last.setdefault(last(k_), []).append(k_)
+    for k_ in by_key:
+        b_last.setdefault(last(k_), []).append(k_)
     for k, ps in by_key.items():
         want = table.get(k)
+        if want is None and "<" not in k and len(t_last.get(last(k), [])) == 1 and len(b_last[last(k)]) == 1 \
+                and fx.bodies[ps[0]]["kind"] == "Fn" and t_last[last(k)][0].count("::") <= k.count("::"):
+            want = table[t_last[last(k)][0]]
         if want is None or len(ps) != 1:
             continue
         b = fx.bodies[ps[0]]
@@ -154,6 +164,160 @@ def canonical_param_names(fx):
     return done
 
 
+FIELD_NAMES_FILE = os.path.join(os.path.dirname(os.path.abspath(__file__)), "field_names.json")
+
+
+def _erase_lt(ty):
+    return re.sub(r"'\w+ ?", "", ty or "")
+
+
+def _adt_of_ty(ty):
+    """`&mapper::ClassMembers<'_>` -> `proguard::mapper::ClassMembers`"""
+    t = (ty or "").lstrip("&").strip()
+    if t.startswith("mut "):
+        t = t[4:]
+    t = re.sub(r"<.*", "", t)
+    return t if t.startswith(("proguard::", "std::", "core::", "alloc::")) else "proguard::" + t
+
+
+def canonical_field_names(fx):
+    """The name of a field that is not `pub` is not behaviour either: nobody outside the crate can say it. `field_names.json`
+    freezes, per type and variant, the reference tree's (name, type, is-public) per field. A type of the analysed tree with the same
+    number of fields, whose public fields are all still there by name, has each private field that the reference does not know
+    renamed to the reference name of the same type (lifetimes erased; several of one type pair up in declaration order). If a
+    field's type has no partner the type is left alone (the rules will then say what they cannot find). Declaration, aggregate
+    expressions, field accesses and patterns are renamed together. Returns {adt: {old: new}}."""
+    try:
+        table = json.load(open(FIELD_NAMES_FILE))
+    except OSError:
+        return {}
+    done = {}
+    for a in fx.all_adts("proguard"):
+        ref = table.get(a["path"])
+        if ref is None:
+            continue
+        ren = {}
+        ok = True
+        for v in a["variants"]:
+            want = ref.get(v["name"])
+            if want is None or len(want) != len(v["fields"]):
+                continue
+            have_names = [f_["name"] for f_ in v["fields"]]
+            want_names = [w[0] for w in want]
+            missing = [w for w in want if w[0] not in have_names]
+            extra = [f_ for f_ in v["fields"] if f_["name"] not in want_names]
+            if not missing:
+                continue
+            if any(w[2] for w in missing) or any(f_.get("vis") == "Public" for f_ in extra):
+                ok = False
+                break
+            used = set()
+            for w in missing:
+                cands = [f_ for f_ in extra if f_["name"] not in used and _erase_lt(f_.get("ty")) == _erase_lt(w[1])]
+                if not cands:
+                    ok = False
+                    break
+                used.add(cands[0]["name"])
+                ren[(v["name"], cands[0]["name"])] = w[0]
+            if not ok:
+                break
+        if not ok or not ren:
+            continue
+        for v in a["variants"]:
+            for f_ in v["fields"]:
+                if (v["name"], f_["name"]) in ren:
+                    f_["name"] = ren[(v["name"], f_["name"])]
+        done[a["path"]] = ren
+    if not done:
+        return {}
+    single = {p: (len(fx.adt(p)["variants"]) == 1) for p in done}
+
+    def new_name(adt, variant, name):
+        r = done.get(adt)
+        if not r:
+            return name
+        if variant is None:
+            hits = [w for (v_, o), w in r.items() if o == name]
+            return hits[0] if len(hits) == 1 else name
+        return r.get((variant, name), name)
+
+    def fix(n):
+        if isinstance(n, list):
+            for x in n:
+                fix(x)
+            return
+        if not isinstance(n, dict):
+            return
+        k = n.get("k")
+        if k == "Field" and "name" in n:
+            n["name"] = new_name(_adt_of_ty(n.get("base_ty")), n.get("variant_name"), n["name"])
+        elif k == "Adt" and n.get("adt") in done:
+            var = n.get("variant")
+            for f_ in n.get("fields", []):
+                f_["name"] = new_name(n["adt"], var, f_["name"])
+            if n.get("all_fields"):
+                n["all_fields"] = [new_name(n["adt"], var, x) for x in n["all_fields"]]
+        elif k in ("Leaf", "Variant") and n.get("adt") in done:
+            var = n.get("variant") if k == "Variant" else None
+            if var is None and single.get(n["adt"]):
+                var = fx.adt(n["adt"])["variants"][0]["name"]
+            for f_ in n.get("fields", []):
+                f_["name"] = new_name(n["adt"], var, f_["name"])
+        for x in n.values():
+            if isinstance(x, (dict, list)):
+                fix(x)
+    for b in fx.bodies.values():
+        if b["krate"] == "proguard":
+            fix(b.get("params"))
+            fix(b["body"])
+    return {a_: {"%s.%s" % k_: w for k_, w in r.items()} for a_, r in done.items()}
+
+
+FIELD_ORDER_FILE = os.path.join(os.path.dirname(os.path.abspath(__file__)), "field_order.json")
+
+
+def canonical_field_order(fx):
+    """The declaration order of the fields of a struct or enum variant without `repr(C)`/`packed`/`transparent` is not behaviour
+    (field access is by name; the compiler lays such a type out as it likes). Terms list an aggregate's fields in declaration
+    order, and the rules' references were written against the reference tree's order, frozen in `field_order.json`: a type of the
+    analysed tree with the same field names has its declaration (and every aggregate expression of it) listed in that order.
+    Types with a `repr` that fixes the layout are never touched - there the order is the on-disk format. Returns the renamed
+    {adt: {variant: order}} for the evidence."""
+    try:
+        table = json.load(open(FIELD_ORDER_FILE))
+    except OSError:
+        return {}
+    done = {}
+    # a derived ordering compares fields in declaration order: for such a type the order is behaviour
+    ordered = set()
+    for im in fx.items.get("proguard", {}).get("impls", []):
+        if (im.get("trait") or "").endswith(("cmp::PartialOrd", "cmp::Ord")):
+            ordered.add(re.sub(r"<.*", "", im.get("self") or "").split("::")[-1])
+    for a in fx.all_adts("proguard"):
+        if a.get("repr_c") or a.get("repr_packed") or a.get("repr_transparent") or a["path"] not in table \
+                or a["path"].split("::")[-1] in ordered:
+            continue
+        for v in a["variants"]:
+            want = table[a["path"]].get(v["name"])
+            have = [f_["name"] for f_ in v["fields"]]
+            if want is None or want == have or sorted(want) != sorted(have):
+                continue
+            perm = [have.index(w) for w in want]
+            v["fields"] = [v["fields"][i] for i in perm]
+            if len(a["variants"]) == 1 and isinstance(a.get("offsets"), list) and len(a["offsets"]) == len(have):
+                a["offsets"] = [a["offsets"][i] for i in perm]
+            done.setdefault(a["path"], {})[v["name"]] = want
+    if done:
+        for b in fx.bodies.values():
+            if b["krate"] != "proguard":
+                continue
+            for n in walk(b["body"]):
+                if n.get("k") == "Adt" and n.get("adt") in done and n.get("variant") in done[n["adt"]] \
+                        and sorted(n.get("all_fields") or []) == sorted(done[n["adt"]][n["variant"]]):
+                    n["all_fields"] = list(done[n["adt"]][n["variant"]])
+    return done
+
+
 class Facts:
     def __init__(self, fact_dir, crates=CRATES):
         self.dir = fact_dir
@@ -179,6 +343,8 @@ class Facts:
         self._cg = None
         self._ti = None
         self.renamed_params = canonical_param_names(self)
+        self.renamed_fields = canonical_field_names(self)
+        self.reordered_fields = canonical_field_order(self)
 
     # ---- lookup -----------------------------------------------------------
     def body(self, path):
